@@ -93,7 +93,8 @@ def build(doc, r: random.Random):
     hdr = gamma.HEADERS[0].hex()
     sigs = {"none": {}, "raw_ok": {KA: {"signature": SIG}}, "gpg_ok": {KA: {"other_headers": hdr, "signature": SIG}},
             "gpgfp_ok": {KB: {"other_headers": hdr, "signature": SIG, "see_also": "f0" * 20}},
-            "bad_value": {KA: r.choice([{"signature": SIG.upper()}, {"signature": SIG[:-2]}, {"signature": SIG, "extra": 1}, {"sig": SIG}, {}])},
+            "bad_value": {KA: r.choice([{"signature": SIG.upper()}, {"signature": SIG[:-2]}, {"signature": SIG + "00"}, {"signature": SIG + SIG}, {"signature": SIG + "0"},
+                                        {"other_headers": hdr, "signature": SIG + "ab"}, {"signature": SIG, "extra": 1}, {"sig": SIG}, {}])},
             "bad_value_nondict": {KA: r.choice(["x", None, 5, [SIG], SIG])},
             "bad_gpg_headers": {KA: r.choice([{"other_headers": "", "signature": SIG}, {"other_headers": "AB", "signature": SIG},
                                               {"other_headers": "abc", "signature": SIG}, {"other_headers": hdr, "signature": SIG, "see_also": "f0"}])},
